@@ -320,8 +320,21 @@ def c03_5(ctx):
         ctx.check(s == want, key, ctx.where(f), "%s: %s values rejected are %s, consensus: exactly %s" % (fn_name, msgname, s.fmt(sym or ""), want.fmt(sym or "")),
                   sample={"function": f.qualname, "subject": msgname, "rejected": s.fmt(sym or "MAX")})
     interval(VM, "VM.eval_script", {"len(self.script)"}, "self.MAX_SCRIPT_LENGTH", ru.is_raise, iv(("s", 1), None), "script-size", "script length")
-    interval(VM, "VM.eval_instruction", {"len(data)"}, "self.MAX_BLOB_LENGTH", ru.is_raise, iv(("s", 1), None), "push-size", "pushed data length")
-    interval(VM, "VM.eval_instruction", {"self.op_count"}, "self.MAX_OP_COUNT", ru.is_raise, iv(("s", 1), None), "op-count", "op count")
+    # eval_instruction: the pushed element is whatever ends up in self.stack.append(..); its length and the op count are limited
+    ei = ctx.func(VM, "VM.eval_instruction")
+    w0 = sym.walk(ctx, ei)
+    pushes = [e for e in w0.effects if e.kind == "call" and norm(e.call.func) == "self.stack.append" and len(e.call.args) == 1]
+    if len({norm(e.call.args[0]) for e in pushes}) != 1:
+        raise Undecided("eval_instruction: the push of the decoded data is not recognisable")
+    data_t = norm(pushes[0].call.args[0])
+    for subj, symb, key, what in (("len(%s)" % data_t, "self.MAX_BLOB_LENGTH", "push-size", "pushed data length"), ("self.op_count", "self.MAX_OP_COUNT", "op-count", "op count")):
+        wi = sym.int_walk(ctx, ei, {subj}, {symb})
+        fr = sym.exits_formula(wi, lambda e: e.kind == "raise")
+        s_, n_ = sym.decisive_set(fr, U, E) if fr is not False else (E, 0)
+        want = iv(("s", 1), None)
+        lim = SPEC.LIMITS[symb.split(".")[-1]]
+        ctx.check(s_ == want or s_ == iv(lim + 1, None), key, ctx.where(ei), "VM.eval_instruction: %s values rejected are %s, consensus: exactly %s (%s = %d)" % (what, s_.fmt(symb), want.fmt(symb), symb, lim),
+                  sample={"function": ei.qualname, "subject": what, "rejected": s_.fmt("MAX")})
     interval(VM, "VM.check_stack_size", {"len(self.stack) + len(self.altstack)"}, "self.MAX_STACK_SIZE", ru.is_raise, iv(("s", 1), None), "stack-size", "stack + altstack size")
     interval(CHECKSIG, "do_OP_CHECKMULTISIG", {"key_count"}, None, ru.is_raise, iv(0, 20).complement(), "multisig-key-count", "key count")
     interval(CHECKSIG, "_check_valid_signature_1", {"ls", "len(sig)"}, None, ru.is_raise, iv(9, 73).complement(), "der-size", "signature length")
@@ -346,11 +359,12 @@ def c03_5(ctx):
     es = ctx.func(VM, "VM.eval_script")
     ctx.check("self.post_script_check()" in norm(es.node) and "while self.pc < len(self.script):" in norm(es.node), "eval-loop", ctx.where(es), "eval_script does not loop to the end of the script and run the post-script checks")
     # opcode counting: every non-push opcode counts, executed or not
-    w = GuardWalker(ru.opaque)
-    w.run(ei.node.body)
-    inc = [(st, r) for st, r in w.visits if isinstance(st, ast.AugAssign) and norm(st.target) == "self.op_count"]
-    ok = len(inc) == 1 and gi.f_equiv(inc[0][1], gi.f_and(("op", "data is None"), inc[0][1])) and "all_if_true" not in repr(inc[0][1])
-    ctx.check(ok, "op-count-unexecuted", ctx.where(ei), "eval_instruction does not count every non-push opcode (executed or not): %s" % [repr(r) for st, r in inc])
+    incs = [e for e in w0.effects if e.kind == "setattr" and norm(e.target) == "self" and e.attr == "op_count"]
+    none_atom = ("op", "%s is None" % data_t)
+    inc_reach = gi.f_or(*[e.reach for e in incs]) if incs else False
+    exec_atoms = [o for o in (gi.f_opaques(inc_reach) if inc_reach not in (True, False) else []) if isinstance(o, str) and o.startswith("truthy(") and "all_if_true()" in o and "get_opcode" not in o]
+    ok = bool(incs) and all(norm(e.value) == "self.op_count + 1" for e in incs) and sym.entails(inc_reach, none_atom) and not exec_atoms
+    ctx.check(ok, "op-count-unexecuted", ctx.where(ei), "eval_instruction does not count every non-push opcode (executed or not): counted when %s" % (repr(inc_reach)[:300],))
     # witness program recognition
     f = ctx.func(SEG, "SegwitChecker._witness_program_version")
     const = ru.const_resolver(ctx, f, set())
@@ -773,9 +787,9 @@ def _c03_resolver(ctx, fi):
     return None
 
 
-def guarded(fn):
+def guarded(fn, near_stands=True):
     from sa.refguard import guarded as g
-    return g(fn, _c03_resolver)
+    return g(fn, _c03_resolver, near_stands)
 
 
 # ------------------------------------------------------------------ C03.15
@@ -804,7 +818,7 @@ OBLIGATIONS = [
     Ob("C03.5", "limits as intervals: script/push/op-count/stack sizes, multisig counts, witness program, P2SH pattern, DER size", guarded(c03_5), floor=20, engines="GI,CE"),
     Ob("C03.6", "520-byte element limit applies to the witness input stack, not the witness script", guarded(c03_6), floor=4, engines="DF,GI", breaks_if="P2WSH witness script > 520 bytes"),
     Ob("C03.7", "*VERIFY opcodes = base opcode; pop; fail unless true", guarded(c03_7), floor=5, engines="SIB"),
-    Ob("C03.8", "flag plumbing across scriptSig / scriptPubKey / P2SH / witness stages", guarded(c03_8), floor=20, engines="DF,GI"),
+    Ob("C03.8", "flag plumbing across scriptSig / scriptPubKey / P2SH / witness stages", guarded(c03_8, near_stands=False), floor=20, engines="DF,GI"),
     Ob("C03.9", "LOW_S compares with the group order", guarded(c03_9), floor=2, engines="MK", breaks_if="s in (n/2, p/2]"),
     Ob("C03.10", "conditional stack guards, MINIMALIF, pop only when executing", guarded(c03_10), floor=8, engines="GI"),
     Ob("C03.14", "stack-shape inference of the pure stack opcodes vs the consensus stack diagrams; hash opcodes; simple handlers", guarded(c03_14), floor=40, engines="CE(abstract stack),SIB",
